@@ -220,7 +220,8 @@ def findings (attr : Toks) (item : Item) (view : View) : List String :=
   (if F_C09_default item view then ["C09.default"] else []) ++
   (if F_C09_assoc item view then ["C09.assoc"] else []) ++
   (if !traitParamsNodup view then ["C03.dupgeneric"] else []) ++
-  (if F_C03_ltbound item view then ["C03.ltbound"] else [])
+  (if F_C03_ltbound item view then ["C03.ltbound"] else []) ++
+  (if F_C18_cfgattr item view then ["C18.cfgattr"] else [])
 
 def evalAll (v : Variant) (attr : Toks) (item : Item) (input : Toks) (m : Outcome) (r : Real) (info : String) : String :=
   match m, r with
